@@ -26,7 +26,7 @@ type EnvScenario struct {
 	Layout   Layout      `json:"layout"`
 	Tree     *N          `json:"tree"`
 	Env      *EnvData    `json:"env"`
-	Faults   []CallFault `json:"faults"` // each one is executed as its own single-fault run
+	Faults   []CallFault `json:"faults"`                // each one is executed as its own single-fault run
 	Source   string      `json:"source_text,omitempty"` // informational; regenerated from Tree
 }
 
